@@ -255,7 +255,7 @@ def judgeDoy (e : Dur) (ts : TS) (hex : String) : List (String × Bool) :=
   | some (dt, tod), some x =>
     let exactNs : Int := (dayNumber dt - dayNumber ⟨dt.y, 1, 1⟩) * NPDs + tod
     let want := Float.ofInt exactNs / 86400000000000.0 + 1.0
-    [("day_of_year_within_1e-9", (x - want).abs < 1e-9)]
+    [("day_of_year_within_2e-12", (x - want).abs < 2e-12)]
   | _, _ => [("decode", false)]
 
 def handle (op : String) (args : List String) (impl : Impl) : Option Ans :=
